@@ -7,6 +7,7 @@ mod exec;
 mod exec_dirs;
 mod exec_files;
 mod fatspec;
+mod faults;
 mod fs;
 mod fscheck;
 mod gen;
@@ -58,6 +59,8 @@ fn engine_of(prop: &str) -> &'static str {
         "fs-history"
     } else if prop == "C09" || prop == "C10" {
         "fs-crash"
+    } else if prop == "C11" {
+        "fs-fault"
     } else {
         "unknown"
     }
@@ -67,6 +70,7 @@ fn run_case(prop: &str, seed: u64) -> CaseOutcome {
     match engine_of(prop) {
         "fs-history" => fscheck::fs_case(prop, seed),
         "fs-crash" => crash::crash_case(prop_static(prop).unwrap(), seed),
+        "fs-fault" => faults::fault_case(seed, env_u64("VERIF_FAULT_POINTS", 400) as usize),
         _ => panic!("no engine for {}", prop),
     }
 }
@@ -83,6 +87,10 @@ fn replay_case(prop: &str, case: &Value) -> Result<CaseOutcome, String> {
         "fs-crash" => {
             let sc: ops::Scenario = serde_json::from_value(case.clone()).map_err(|e| format!("bad scenario: {}", e))?;
             Ok(crash::crash_replay(prop_static(prop).unwrap(), &sc))
+        }
+        "fs-fault" => {
+            let sc: ops::Scenario = serde_json::from_value(case.clone()).map_err(|e| format!("bad scenario: {}", e))?;
+            Ok(faults::fault_replay(&sc))
         }
         _ => Err(format!("no engine for {}", prop)),
     }
@@ -120,13 +128,20 @@ fn meta(prop: &str) -> (&'static str, String, Value, Vec<String>) {
             fscheck::fs_components(),
             vec!["exhaustive over the crash points of each explored history (every write-log prefix); histories themselves are sampled".to_string()],
         ),
+        "fs-fault" => (
+            "fault_enumeration",
+            "one case = one simulated history (small volumes, lookups/listings/reads as well as create/write/delete/mkdir) executed fault-free to count its N block-device calls, then re-executed from the start once per call index i with exactly call i failing (read: buffer scribbled + Err; write: lost + Err, and applied + Err), plus 'device dead from call i until the API call returns' windows; after the failing call: it must have returned Err without panic/hang, a read-only call is retried and must be correct, every open handle is used and closed (and must be released), and the medium is compared with the model except for the object the failed call operated on; evaluations = injected fault executions; non-trivial = at least one fault fired inside an API call; distinct = hash over the event logs of all fault executions of the history".to_string(),
+            fscheck::fs_components(),
+            vec!["exhaustive over the device-call indices of each explored history (histories with more than VERIF_FAULT_POINTS=400 fault points are sampled, counted in probes.fault_points_sampled_not_enumerated); histories themselves are sampled".to_string()],
+        ),
         _ => ("exploration", fscheck::fs_rule(prop), fscheck::fs_components(), vec![]),
     }
 }
 
 fn runs_for(prop: &str, tier: &str) -> u64 {
     let quick = match prop {
-        "C09" | "C10" => 20_000,
+        "C09" | "C10" => 60_000,
+        "C11" => 8_000,
         "C01" | "C06" | "C07" | "C08" => 40_000,
         "C02" => 30_000,
         _ => 25_000,
